@@ -2,11 +2,12 @@
 """Assemble /verif/MANIFEST.json from props/*.json and tools/not_applicable.json."""
 import json, glob, os, subprocess
 ROOT = os.path.dirname(os.path.dirname(os.path.abspath(__file__)))
+CLAIMED = set(open(os.path.join(ROOT, "tools", "claimed.txt")).read().split())
 checks = []
 claimed = set()
 for p in sorted(glob.glob(os.path.join(ROOT, "props", "C*.json"))):
     c = json.load(open(p))
-    if c.get("disabled"):
+    if c.get("disabled") or c["id"] not in CLAIMED:
         continue
     m = c["manifest"]
     pid = c["id"]
